@@ -32,6 +32,14 @@ class AnalysisError(Exception):
     """The analysis could not be performed (exit 2, never a VIOLATION)."""
 
 
+REQUESTED = set()       # anchor keys asked for during a run (used to maintain audit/anchors.toml)
+_ANCHORS = None
+
+
+def fn_signature(f):
+    return ([f["locals"][i]["ty"] for i in range(1, f["argc"] + 1)], f["locals"][0]["ty"])
+
+
 def tree_digest(root):
     h = hashlib.sha256()
     files = []
@@ -173,7 +181,13 @@ class Facts:
                 self.traits[t["path"]] = t
 
     def fn(self, key):
+        REQUESTED.add(key)
         f = self.fns.get(key)
+        if f is None:
+            g = self._by_signature(key)
+            if g is not None:
+                self.fns[key] = g
+                return g
         if f is None:
             # a free function (or inherent method) that was moved to another module of its crate keeps its role: the one
             # function of that crate with the same name (and the same type for a method) stands for it
@@ -189,6 +203,31 @@ class Facts:
                     return self.fns[key]
             raise AnalysisError("anchor function missing: %s" % key)
         return f
+
+    def _by_signature(self, key):
+        """A function that was renamed keeps its role when it is the only function of its crate with the signature the anchor had on
+        the pinned tree (audit/anchors.toml: parameter and result types, owner type of a method) - and the old name is gone."""
+        global _ANCHORS
+        if _ANCHORS is None:
+            import tomllib
+            try:
+                with open(os.path.join(VERIF, "audit", "anchors.toml"), "rb") as fh:
+                    _ANCHORS = {r["key"]: r for r in tomllib.load(fh).get("anchor", [])}
+            except OSError:
+                _ANCHORS = {}
+        a = _ANCHORS.get(key)
+        if not a:
+            return None
+        cands = []
+        for k, g in self.fns.items():
+            if g["crate"] != a["crate"] or "{" in k or k in _ANCHORS and k != key:
+                continue
+            if (g.get("impl_trait") or "") != a.get("impl_trait", ""):
+                continue
+            if fn_signature(g) == (a["params"], a["ret"]) and (g.get("impl_self_adt") or "") == a.get("owner", ""):
+                cands.append(g)
+        uniq = {g["key"]: g for g in cands}
+        return next(iter(uniq.values())) if len(uniq) == 1 else None
 
     def deps_closure(self, crate):
         seen = set()
